@@ -85,6 +85,13 @@ func odds() []odd {
 			l.Mapping = nil
 		}
 	})
+	add("no-mappings-no-locations", func(p *profile.Profile) {
+		p.Mapping, p.Location, p.Function = nil, nil, nil
+		for _, s := range p.Sample {
+			s.Location = nil
+		}
+	})
+	add("nothing-but-sample-types", func(p *profile.Profile) { p.Mapping, p.Location, p.Function, p.Sample = nil, nil, nil, nil })
 	add("location-without-mapping", func(p *profile.Profile) { p.Location[0].Mapping = nil })
 	add("all-unsymbolized", func(p *profile.Profile) {
 		for _, l := range p.Location {
@@ -283,6 +290,39 @@ func Run(c *vk.Ctx) {
 			return nil, false
 		}
 		return b, true
+	}
+	// F: odd profiles x the options that act on the fetched profile before any report (build id and
+	// executable overrides, symbolization mode, comment), command top
+	srcOpts := [][]string{{"buildid=abc"}, {"buildid="}, {"EXEC"}, {"EXEC", "buildid=abc"}, {"symbolize=local"}, {"symbolize=force"}, {"add_comment=x"}, {"EXEC", "symbolize=remote"}}
+	for _, o := range od {
+		data, ok := encode(o)
+		if !ok {
+			continue
+		}
+		for _, so := range srcOpts {
+			if c.Mine(idx) {
+				w := witness{Family: "F", Profile: o.name, Command: []string{"top"}, Options: so}
+				class := "odd-profile-with-source-option/" + classOfOdd(o.name)
+				c.Eval()
+				c.Journal(class, w)
+				args := []string{"p"}
+				var opts []string
+				for _, x := range so {
+					if x == "EXEC" {
+						args = []string{"/bin/some-executable", "p"}
+					} else {
+						opts = append(opts, x)
+					}
+				}
+				fl := drive.MkFlags(args, append([]string{"top"}, opts...)...)
+				r := drive.Run(&drive.Session{Fetch: &drive.Fetcher{Data: map[string][]byte{"p": data}}, Flags: fl, Obj: drive.FakeObj{}})
+				if r.Panic != nil {
+					c.Violationf("panic/"+class, w, "%v\n%s", r.Panic, r.Stack)
+				}
+				c.Nontrivial("F|" + o.name + strings.Join(so, ","))
+			}
+			idx++
+		}
 	}
 	// A: odd profiles x commands
 	for _, o := range od {
